@@ -179,6 +179,13 @@ class PddlText:
             # `?x - crate` decide the type of a later `?x - item`
             v = r.choice(["?x", "?y"])
             t = r.choice(["loc", "item"] + (["crate", "crate"] if self.subtype else []))
+            typed_params = [(pv, pt) for pv, pt in scope.items() if pv.startswith("?p") and pt is not None]
+            if typed_params and r.random() < 0.4:
+                # the quantified variable SHADOWS an action parameter (same name; same or different type): inside the
+                # quantifier the name denotes the bound variable
+                v, pt = r.choice(typed_params)
+                if r.random() < 0.7:
+                    t = pt
             sc = dict(scope)
             sc[v] = t
             return "(%s (%s - %s) %s)" % (kind, v, t, self.gen_cond(depth - 1, sc))
@@ -364,4 +371,29 @@ def corpus_texts():
 )
 """ % (q, first)
             out.append(("corpus:zoo-%s-%s-first" % (q, first), dom, prob))
+    # a quantified variable that shadows an action parameter, in a precondition and in the condition of a conditional
+    # effect: with r2 at l2, move(r1, l1, l2) is inapplicable (some robot is at ?to), and park marks ?l busy iff SOME
+    # robot is there
+    dom = """(define (domain robots)
+ (:requirements :strips :typing :negative-preconditions :existential-preconditions :conditional-effects)
+ (:types robot loc)
+ (:predicates (at ?r - robot ?l - loc) (busy ?l - loc) (parked ?r - robot))
+ (:action move
+  :parameters (?r - robot ?from - loc ?to - loc)
+  :precondition (and (at ?r ?from) (not (exists (?r - robot) (at ?r ?to))))
+  :effect (and (not (at ?r ?from)) (at ?r ?to)))
+ (:action park
+  :parameters (?r - robot ?l - loc)
+  :precondition (and )
+  :effect (and (parked ?r) (when (exists (?r - robot) (at ?r ?l)) (busy ?l))))
+)
+"""
+    prob = """(define (problem robots-p) (:domain robots)
+ (:requirements :strips :typing :negative-preconditions)
+ (:objects r1 r2 - robot l1 l2 l3 - loc)
+ (:init (at r1 l1) (at r2 l2))
+ (:goal (and (at r1 l3) (parked r2)))
+)
+"""
+    out.append(("corpus:shadowed-parameter", dom, prob))
     return out
